@@ -309,6 +309,11 @@ MUTATIONS += [
     dict(id="C12-modify-saves-unchanged-tree", prop="C12", file=MODF, old="        let new_id = if changed {\n            let new_id = self.save_tree(&new_tree)?;", new="        let new_id = if changed || !self.dry_run {\n            let new_id = self.save_tree(&new_tree)?;"),
 ]
 
+MUTATIONS += [
+    dict(id="C12-modify-changed-subtree-not-flagged", prop="C12", file=MODF, old="                        ModifierChange::Changed(tree_id) => {\n                            node.subtree = Some(tree_id);\n                            new_tree.add(node);\n                            changed = true;", new="                        ModifierChange::Changed(tree_id) => {\n                            node.subtree = Some(tree_id);\n                            new_tree.add(node);"),
+    dict(id="C12-modify-removed-node-not-flagged", prop="C12", file=MODF, old="                NodeAction::Removed => {\n                    changed = true;\n                }", new="                NodeAction::Removed => {}"),
+]
+
 HARMLESS = [
     dict(id="H-C05-trees-symlink-continue", prop="C05", file=CK, old="        for node in tree.nodes {\n            match node.node_type {", new="        for node in tree.nodes {\n            if node.node_type == NodeType::Symlink {\n                continue;\n            }\n            match node.node_type {"),
 ]
